@@ -293,6 +293,39 @@ def run(case):
                 return out
         bump(out['faults'], 'global-thread-count-changed-between-calls')
     out['events'].append([site, n, case['nthread'], int(cT.sum()), summ['regions'], summ['switches']])
+    # ---- the same binning as reported by the estimator built on it (calc_pk_from_deltak): the per-bin means of
+    # |field|^2 times Lbox^3, mode counts and mean k unchanged
+    if case['which'] == 'kmu' and case['fourier']:
+        field = np.sqrt(w.astype(np.float64)).astype(np.complex64)
+        L = case['L']
+
+        def estimator():
+            return ps.calc_pk_from_deltak(field, L, np.array(case['kedges'], dtype=np.float64), np.array(case['muedges'], dtype=np.float64),
+                                          poles=np.array(case['poles'], dtype=np.int64), squeeze_mu_axis=False, nthread=case['nthread'])
+        est, exc3, _ = H.run(estimator, H.without_replay(s))
+        esite = 'calc_pk_from_deltak'
+        if SIM.oob_events:
+            violation(out, 'oob', (SIM.oob_events[0]['region'] or esite).split('#')[0], SIM.oob_events[0])
+            return out
+        if exc3 is not None:
+            violation(out, 'raises:' + type(exc3).__name__, esite, repr(exc3)[:300])
+            return out
+        mean, counts, pmean, cpoles, kmean = [np.asarray(x) for x in res]
+        f3 = float(L) ** 3
+        pairs = [('power', mean.astype(np.float64) * f3, 'N_mode', counts), ('k_avg', kmean.astype(np.float64), 'N_mode_poles', cpoles)]
+        if len(case['poles']):
+            pairs.append(('binned_poles', pmean.astype(np.float64) * f3, 'N_mode_poles', cpoles))
+        for name, want, cname, cwant in pairs:
+            got = np.asarray(est[name], dtype=np.float64)
+            if got.shape != want.shape or not np.allclose(got, want, rtol=5e-5, atol=1e-6 * max(1.0, f3)):
+                violation(out, 'estimator-differs-from-binning', esite,
+                          {'output': name, 'Lbox': L, 'poles': case['poles'], 'n_mu_bins': len(case['muedges']) - 1,
+                           'max_ratio': float(np.nanmax(np.abs(got) / np.maximum(np.abs(want), 1e-300))) if got.shape == want.shape and got.size else None})
+                return out
+            if not np.array_equal(np.asarray(est[cname]), cwant):
+                violation(out, 'estimator-differs-from-binning', esite, {'output': cname})
+                return out
+        bump(out['probes'], 'estimator-on-top-of-binning')
     if case.get('compiled'):
         _compiled(case, w, ref, site, out, res1)
     if case.get('huge') and not out['violations']:
